@@ -110,6 +110,13 @@ def run_one(ck, prog):
             stale = []
             for l in idx_locals:
                 for (dbb, didx) in ctx.prov.defs.get((l, None), []):
+                    # the initialisation with 0 is no update: the path from entry to the first read is the rule above
+                    try:
+                        st0 = cfg.block(dbb)["stmts"][didx]
+                        if st0["k"] == "assign" and fold(ctx.prov.rvalue(st0["rv"], (dbb, didx))) == 0:
+                            continue
+                    except (TypeError, IndexError, KeyError):
+                        pass
                     # from just after the definition: successors of the defining block (the def is at the end of its block's work)
                     starts = [ed.dst for ed in cfg.succ[dbb] if (ed.src, ed.dst) not in cut]
                     reach = set()
